@@ -168,6 +168,23 @@ func c09(c *an.Ctx) {
 		if !okRej {
 			o.Fail(p.Pos(fn.Pos()), "mergeInputFields no longer rejects a required (non-null) argument that only one side knows: the other side's callers could never supply it")
 		}
+		// ... in every mode: from the one-sided branch the loop continues only through the `not NON_NULL` edge
+		for _, ci := range an.CondIfs(fn, func(v ssa.Value) bool {
+			s := an.Expr(v)
+			return strings.HasPrefix(s, "(len(") && strings.HasSuffix(s, ") == 1)")
+		}) {
+			h := an.LoopHeaderOf(ci.If)
+			if h == nil {
+				continue
+			}
+			blk := an.NewBlocker()
+			for _, c2 := range an.CondIfs(fn, func(v ssa.Value) bool { return strings.HasSuffix(an.Expr(v), ".Type.Kind == \"NON_NULL\")") }) {
+				blk.AddEdge(c2.If.Block(), c2.False)
+			}
+			if len(ci.True.Instrs) > 0 && an.Reach(fn, ci.True.Instrs[0], blk)[h.Instrs[0]] {
+				o.FailAt(ci.If, "a one-sided input field can be dropped or kept without the NON_NULL test (e.g. only tested under Union): intersecting two versions silently drops a required argument, so the gateway accepts queries one version rejects")
+			}
+		}
 	})
 
 	c.Check("R-BOOL", "mergeTypeRefs nullability lattice: non-null iff isInput || (aNonNull && bNonNull); recursion keeps isInput; callers pass false for outputs and true for inputs", 5, func(o *an.O) {
